@@ -106,6 +106,10 @@ func (p *ProjectionPlan) processProjection(kvp KVPair, ctx *ExecuteCtx) ([]Colum
 		result any
 		err    error
 	)
+	if ctx != nil {
+		// Only use the results that are cached for this row
+		ctx.BindRow(kvp.Key)
+	}
 	for i := 0; i < nFields; i++ {
 		have := false
 		if ctx != nil {
